@@ -4,6 +4,7 @@
 //! (C17) engines: id-carrying requests, a checking echo handler, streaming bodies, a routing transport with
 //! byte taps and dial log, a counting executor, gates, and the TLS fixtures.
 
+pub mod clientapi;
 pub mod deadline;
 pub mod faults;
 pub mod panics;
@@ -601,6 +602,24 @@ impl Clone for Reservation {
     }
 }
 
+impl Reservation {
+    /// true when this instance holds a slot (after taking one if one was free); otherwise registers the waker
+    pub fn try_reserve(&mut self, slots: &Arc<Slots>, cx: &mut Context<'_>) -> bool {
+        if self.held.is_some() {
+            return true;
+        }
+        let mut st = slots.state.lock().unwrap();
+        if st.0 == 0 {
+            st.1.push(cx.waker().clone());
+            return false;
+        }
+        st.0 -= 1;
+        drop(st);
+        self.held = Some(slots.clone());
+        true
+    }
+}
+
 impl Drop for Reservation {
     fn drop(&mut self) {
         if let Some(s) = self.held.take() {
@@ -631,15 +650,8 @@ impl tower::Service<http::request::Parts> for Routes {
 
     fn poll_ready(&mut self, cx: &mut Context<'_>) -> Poll<Result<(), Self::Error>> {
         if let Some(slots) = &self.slots {
-            if self.reservation.held.is_none() {
-                let mut st = slots.state.lock().unwrap();
-                if st.0 == 0 {
-                    st.1.push(cx.waker().clone());
-                    return Poll::Pending;
-                }
-                st.0 -= 1;
-                drop(st);
-                self.reservation.held = Some(slots.clone());
+            if !self.reservation.try_reserve(slots, cx) {
+                return Poll::Pending;
             }
         }
         Poll::Ready(Ok(()))
